@@ -83,6 +83,16 @@ SUMMARY = {
  "C15-i": "AwaitGateCondition returns success when the count is met although the gate was cancelled: after an idle crash the next invocation 'succeeds' (start / runtime-done success for a dead runtime)",
  "C16-i": "with an empty init handler the customer's _HANDLER is written into the reserved runtime layer and beats the reserved handler",
  "C20-i": "error cause parsed with json.Decoder: a well-formed document followed by further bytes is accepted",
+ "C01-j": "a failed invocation is answered before its reset (same swap as C07-i, asked for under C01): the next event, posted right after the 502, is refused and never reaches the runtime",
+ "C02-j": "/error handler moves the runtime state only after the body has been read: a stale submission whose body is completed after the next dispatch is refused but moves the new runtime's state",
+ "C03-j": "the init ready-barrier counts only extensions that subscribed to something: an extension registered with no events is not awaited (or makes init fail with ErrGateIntegrity)",
+ "C04-j": "agent-ready count of the invoke flow omits internal INVOKE subscribers: the invocation completes while one subscriber is still busy",
+ "C08-j": "cancelOnce re-armed in PreregisterRuntime instead of Clear: after a reset, an exit during the next generation's registration phase goes unnoticed (hang)",
+ "C10-j": "Reserve refuses with ErrAlreadyReplied once the held reservation's reply was sent: the front end has an empty case for it and answers 200 with an empty body",
+ "C12-j": "init type stored after the Runtime API server is built: in snapshot mode the restore routes are never mounted (404)",
+ "C17-j": "Invoke.ID taken from the token instead of the Invoke-Id header: the id check compares the token with itself, a direct invoke for another id is accepted",
+ "C18-j": "HandleRestore takes the handler mutex: a restore request before the restore poll blocks until init ends instead of returning at once",
+ "C19-j": "Terminate returns without signalling when the leader has already exited: members of its group never get the SIGTERM",
  "C04-e": "AwaitRuntimeReady of the invoke flow waits on the response gate: the invocation completes before the runtime asked for next",
  "C11-e": "a cancelled gate whose count is met returns success from AwaitGateCondition",
  "C13-e": "event validation of register only looks at the last element: an illegal event before a legal one registers a ghost / wrong error type",
